@@ -2,7 +2,7 @@
 import numpy as np
 
 from .. import sched
-from ..api import GridPart, Part, Res
+from ..api import FuzzPart, GridPart, Part, Res
 
 PROPERTY_ID = "C02"
 RULE = (
@@ -82,6 +82,8 @@ def oracle(cfg):
 PARTS = [
     Part("configs", sched.config, oracle, n_quick=500, n_thorough=6000),
     GridPart("small_grid", sched.grid_configs, oracle),
+    # thorough tier only: coverage-guided campaign on the pure-Python schedulers (same oracle inside the target)
+    FuzzPart("atheris", "harness.fuzz_sched", runs_quick=2000, runs_thorough=25000, oracle=oracle),
 ]
 QUOTAS = {"degenerate": {"quick": 150, "thorough": 5000}, "Lmin-clamped": {"quick": 100, "thorough": 3000},
           "single-segment-bins": {"quick": 100, "thorough": 3000}, "N<64": {"quick": 100, "thorough": 3000},
